@@ -42,6 +42,10 @@ pub struct Spec {
     /// tree-level part: a leaf set, a permutation seed, and a split into sub-batches
     pub leaves: Vec<(H32, H32)>,
     pub tree_seed: u64,
+    /// set in replay files: the scheduling decisions of every configuration run are drawn from this seed
+    /// (each configuration has its own run, so a single recorded trace cannot serve them all)
+    #[serde(default)]
+    pub chooser_seed: Option<u64>,
 }
 
 fn all_variants(rng: &mut Rng) -> Vec<Variant> {
@@ -126,7 +130,7 @@ fn gen(rng: &mut Rng, tier: Tier) -> Spec {
         v.copy_from_slice(&b);
         (l, v)
     }).collect();
-    Spec { hist, variants, leaves, tree_seed: rng.next_u64() }
+    Spec { hist, variants, leaves, tree_seed: rng.next_u64(), chooser_seed: None }
 }
 
 fn apply_variant(h: &HistSpec, v: &Variant) -> HistSpec {
@@ -392,6 +396,18 @@ impl Arm for C14 {
                 return rep;
             }
         };
+        let seeded;
+        let chooser = match (spec.chooser_seed, chooser) {
+            (Some(s), _) => {
+                seeded = ChooserSpec::Seeded(s);
+                &seeded
+            }
+            (None, c) => c,
+        };
+        let chooser_seed = match chooser {
+            ChooserSpec::Seeded(s) => Some(*s),
+            _ => None,
+        };
         let (base, st, err) = transcript(&spec.hist, chooser);
         rep.stats = st;
         if let Some(e) = err {
@@ -464,6 +480,7 @@ impl Arm for C14 {
                 rep.violate(viol);
                 let mut s2 = spec.clone();
                 s2.variants = vec![v.clone()];
+                s2.chooser_seed = chooser_seed;
                 rep.spec_override = Some(serde_json::to_value(&s2).unwrap());
                 break;
             }
